@@ -8,7 +8,7 @@ from ..env import ptn
 CHUNK = 1024
 
 
-def check_graph(ctx, nu, nv, edges, ref_size, in_situ=False, graph=None, cover=None, budget=None):
+def check_graph(ctx, nu, nv, edges, ref_size, in_situ=False, graph=None, cover=None, budget=None, matching_only=False):
     """Returns False on the first failed condition (details recorded)."""
     s = in_situ
     detail = {'nu': nu, 'nv': nv, 'edges': edges}
@@ -32,11 +32,11 @@ def check_graph(ctx, nu, nv, edges, ref_size, in_situ=False, graph=None, cover=N
                 again = solver()
                 ok_again = (isinstance(again, list) and len(again) == ref_size and all(p in eset for p in again)
                             and len({p[0] for p in again}) == len(again) and len({p[1] for p in again}) == len(again))
-                if not ctx.ok('matching.repeated-call-on-same-solver', ok_again, f'call {rep + 2} on the same HopcroftKarp object returned {again} (maximum {ref_size})', detail, s):
+                if not ctx.ok('matching.repeated-call-on-same-solver', ok_again, f'call {rep + 2} on the same HopcroftKarp object returned {str(again)[:300]} (size {len(again) if isinstance(again, list) else "?"}, maximum {ref_size})', detail, s):
                     return False
             if budget is not None:
                 budget[0].start(budget[1])
-            cover = ptn.minimum_vertex_cover(g)
+            cover = ptn.minimum_vertex_cover(g) if not matching_only else None
             if budget is not None:
                 ctx.close('termination.steps-within-budget', max(steps_m, budget[0].count), budget[1], 'logical steps', detail, s)
                 budget[0].budget = None
@@ -46,16 +46,18 @@ def check_graph(ctx, nu, nv, edges, ref_size, in_situ=False, graph=None, cover=N
         ok &= ctx.ok('matching.is-list-of-pairs', isinstance(matching, list) and all(isinstance(p, tuple) and len(p) == 2 for p in matching), 'matching must be a list of pairs', detail, s)
         if not ok:
             return False
-        ok &= ctx.ok('matching.subset-of-edges', all(p in eset for p in matching), f'matching {matching} uses a non-edge', detail, s)
+        ok &= ctx.ok('matching.subset-of-edges', all(p in eset for p in matching), f'matching {str(matching)[:300]} uses a non-edge', detail, s)
         us = [p[0] for p in matching]
         vs = [p[1] for p in matching]
-        ok &= ctx.ok('matching.vertex-disjoint', len(set(us)) == len(us) and len(set(vs)) == len(vs), f'matching {matching} shares a vertex', detail, s)
+        ok &= ctx.ok('matching.vertex-disjoint', len(set(us)) == len(us) and len(set(vs)) == len(vs), f'matching {str(matching)[:300]} shares a vertex', detail, s)
         ok &= ctx.ok('matching.maximum', len(matching) == ref_size, f'matching size {len(matching)} != maximum {ref_size}', detail, s)
+    if cover is None:
+        return ok                       # matching only (the cover routine is quadratic in the matching size: out of reach for 66000 vertices)
     uc, vc = cover
     ok &= ctx.ok('cover.in-range', all(0 <= u < nu for u in uc) and all(0 <= v < nv for v in vc) and len(set(uc)) == len(uc) and len(set(vc)) == len(vc),
-                 f'cover {cover} out of range / repeated', detail, s)
+                 f'cover {str(cover)[:300]} out of range / repeated', detail, s)
     ucs, vcs = set(uc), set(vc)
-    ok &= ctx.ok('cover.touches-every-edge', all((u in ucs) or (v in vcs) for (u, v) in eset), f'cover {cover} misses an edge', detail, s)
+    ok &= ctx.ok('cover.touches-every-edge', all((u in ucs) or (v in vcs) for (u, v) in eset), f'cover {str(cover)[:300]} misses an edge', detail, s)
     ok &= ctx.ok('cover.minimum', len(uc) + len(vc) == ref_size, f'cover size {len(uc) + len(vc)} != maximum matching {ref_size}', detail, s)
     return ok
 
@@ -312,6 +314,21 @@ def wide_case(ctx, idx, rng):
     check_graph(ctx, nu, nv, edges, ref)
 
 
+def very_deep_case(ctx, idx, rng):
+    """One augmenting path through MORE THAN 65536 U vertices (ladder whose greedy first phase strands the last vertex; both partitions above 2**16):
+    distances and layer indices beyond 16 bits. Matching only -- optimum known in closed form (perfect matching)."""
+    n = int(rng.integers(65536, 66300))
+    edges = []
+    for i in range(n):
+        edges += [(i, i + 1), (i, i)]
+    edges.append((n, n))
+    if idx % 2:
+        edges = [(v, u) for u, v in edges][::-1]
+        edges = [(u, v) for (u, v) in edges]
+    ctx.case(('very-deep', 'ladder-one-long-augmenting-path', 'transposed' if idx % 2 else 'as-built'), sample={'n': n, 'nu': n + 1, 'nv': n + 1, 'edges': edges[:8]})
+    check_graph(ctx, n + 1, n + 1, edges, n + 1, matching_only=True)
+
+
 def insitu_case(ctx, idx, rng):
     """minimum_vertex_cover as driven by from_opchains while compiling real Hamiltonians and random chain lists."""
     seen = [0]
@@ -403,6 +420,7 @@ SPEC = {
         Workload('random', random_case, quick=600, thorough=100000),
         Workload('staircase', staircase_case, quick=400, thorough=60000),
         Workload('deep', deep_case, quick=12, thorough=240),
+        Workload('very-deep', very_deep_case, quick=1, thorough=16),
         Workload('wide', wide_case, quick=60, thorough=1500),
         Workload('dead-end-ladders', dead_end_ladder_case, quick=12, thorough=360),
         Workload('insitu', insitu_case, quick=60, thorough=6000),
